@@ -155,7 +155,7 @@ class BSL(ModelBased):
         self.state['params'] = np.zeros((n_samples, len(self.parameter_names)))
         self.state['params'][0] = params0
         self.state['logprior'] = np.zeros((n_samples))
-        self.state['logprior'][0] = self.prior.logpdf(params0)
+        self.state['logprior'][0] = float(np.squeeze(self.prior.logpdf(params0)))
         self.state['logposterior'] = np.zeros((n_samples))
         if self.is_misspec:
             self.state['gamma'] = np.zeros((n_samples, self.observed.size))
@@ -214,7 +214,7 @@ class BSL(ModelBased):
                 self.state['logposterior'][n-1] = ll + self.state['logprior'][n-1]
             # sample candidate parameter values
             prop = self._propagate_state()
-            logprior = self.prior.logpdf(prop)
+            logprior = float(np.squeeze(self.prior.logpdf(prop)))
             if np.isfinite(logprior):
                 # start data collection with the proposed parameter values
                 self.state['logprior'][n] = logprior
@@ -244,9 +244,10 @@ class BSL(ModelBased):
         else:
             if self.is_misspec:
                 gamma = self.gamma_sampler_state['gamma']
-                loglikelihood = self.likelihood(self.simulated, self.observed, gamma=gamma)
+                loglikelihood = float(np.squeeze(
+                    self.likelihood(self.simulated, self.observed, gamma=gamma)))
             else:
-                loglikelihood = self.likelihood(self.simulated, self.observed)
+                loglikelihood = float(np.squeeze(self.likelihood(self.simulated, self.observed)))
 
         n = self.state['n_samples']
         if not np.isfinite(loglikelihood):
